@@ -152,6 +152,23 @@ fn nontrivial_enum(e: &EnumDef) -> bool {
 
 // ------------------------------------------------------------ executed (host)
 
+/// What pyxis itself records for an enum (and uses when the enum is a member of another type) must be
+/// the size and alignment of its base type.
+fn registry_agrees(prog: &Prog, built: &Built) -> Result<(), String> {
+    for m in &prog.mods {
+        for e in m.enums() {
+            let Some(s) = builtin_size(&e.base) else { continue };
+            let path = format!("{}::{}", m.path_str(), e.name);
+            match built.items.get(&path) {
+                Some(i) if i.size as u64 == s && i.align as u64 == s.max(1) => {}
+                Some(i) => return Err(format!("enum {path} over {}: pyxis records size {} / alignment {}, the base type has {s} / {s}", e.base, i.size, i.align)),
+                None => return Err(format!("enum {path} is not in the registry")),
+            }
+        }
+    }
+    Ok(())
+}
+
 pub struct Values;
 impl Prop for Values {
     type Case = L3Case;
@@ -160,7 +177,7 @@ impl Prop for Values {
         "C08/values".into()
     }
     fn rule(&self) -> String {
-        "20 enums per crate over all ten integer bases, 1-32 variants, explicit values (negative where signed, any spelling, boundary values of the base within what the grammar's isize can write) mixed with implicit runs, default marker anywhere or absent, copyable/cloneable/defaultable subsets; executed on the host: the driver prints `Variant as <int>` for every variant, size_of, align_of and Default::default(). Oracle: written value, else predecessor + 1 (first 0); size and alignment of the base type; default = the marked variant. Non-trivial enum: >=3 variants with an explicit value followed by an implicit one, or a boundary value, or a default that is not the first variant".into()
+        "20 enums per crate over all ten integer bases, 1-32 variants, explicit values (negative where signed, any spelling, boundary values of the base within what the grammar's isize can write) mixed with implicit runs, default marker anywhere or absent, copyable/cloneable/defaultable subsets; executed on the host: the driver prints `Variant as <int>` for every variant, size_of, align_of and Default::default(). Oracle: written value, else predecessor + 1 (first 0); size and alignment of the base type, also as pyxis records them for use in embedding types; default = the marked variant. Non-trivial enum: >=3 variants with an explicit value followed by an implicit one, or a boundary value, or a default that is not the first variant".into()
     }
     fn gen(&self, t: &mut Tape) -> L3Case {
         L3Case {
@@ -169,6 +186,11 @@ impl Prop for Values {
         }
     }
     fn judge(&self, c: &L3Case) -> Outcome {
+        if let Res::Ok(b) = build_prog(&c.prog, 8) {
+            if let Err(e) = registry_agrees(&c.prog, &b) {
+                return Outcome::fail("recorded-layout", e);
+            }
+        }
         let r = match run_l3(c, &["enum"]) {
             Ok(r) => r,
             Err(o) => return o,
@@ -212,6 +234,9 @@ impl Prop for Width4 {
             Res::Err(e) => return Outcome::fail("valid-enum-rejected", e),
             Res::Panic(p) => return Outcome::fail("panic", p),
         };
+        if let Err(e) = registry_agrees(&c.prog, &built) {
+            return Outcome::fail("recorded-layout", e);
+        }
         let mut app = Appendix::new();
         let file = c.prog.mods[0].out_path();
         for e in c.prog.mods[0].enums() {
